@@ -26,9 +26,9 @@ M("C01", "segments-hoisted", "driver/async_spastruct.py",
   "            while retry_count > 0:\n\n                # Create the request",
   "            segments = []\n            next_expected = 0\n            while retry_count > 0:\n\n                # Create the request", expect="silent")
 M("C01", "sync-no-reset-before-retry", "driver/spastruct.py",
-  "                self._next_expected = 0\n                self._status_block_segments = []\n                if not handler.retry", "                if not handler.retry", rule="R4")
+  "                self._next_expected = 0\n                self._status_block_segments = []\n                if not handler.retry", "                if not handler.retry", rule="R3")
 M("C01", "sync-install-without-final", "driver/spastruct.py",
-  "            if handler.next == 0:\n                logger.debug(\n                    \"Status block segments complete", "            if True:\n                logger.debug(\n                    \"Status block segments complete", rule="R1")
+  "            if handler.next == 0:\n                logger.debug(\n                    \"Status block segments complete", "            if True:\n                logger.debug(\n                    \"Status block segments complete", rule="R3")
 M("C01", "sim-modulus-plus-one", "utils/simulator.py",
   "% -(-handler.length // self._STATUS_BLOCK_SEGMENT_SIZE)", "% ((handler.length // self._STATUS_BLOCK_SEGMENT_SIZE) + 1)", rule="R6")
 M("C01", "sim-modulus-ceil-twin", "utils/simulator.py",
@@ -197,7 +197,7 @@ M("C11", "unknown-fallback-removed", "driver/accessor.py", "            except I
 M("C11", "reminder-valueerror-unhandled", "driver/protocol/reminders.py", "            except ValueError:\n                _LOGGER.warning(\"Cannot use %d as reminder type, ignored\", t)", "            except KeyError:\n                _LOGGER.warning(\"Cannot use %d as reminder type, ignored\", t)", rule="R6")
 M("C11", "heating-unguarded", "automation/heater.py",
   "        if GeckoConstants.KEY_HEATING in self._spa.accessors:\n            self._heating_action_sensor = GeckoBinarySensor(\n                self, \"Heating\", self._spa.accessors[GeckoConstants.KEY_HEATING]\n            )",
-  "        if True:\n            self._heating_action_sensor = GeckoBinarySensor(\n                self, \"Heating\", self._spa.accessors[GeckoConstants.KEY_HEATING]\n            )", rule="R1")
+  "        if True:\n            self._heating_action_sensor = GeckoBinarySensor(\n                self, \"Heating\", self._spa.accessors[GeckoConstants.KEY_HEATING]\n            )", rule="R8")
 
 # --------------------------------------------------------------------------- C12
 M("C12", "async-set-dedup", "automation/async_facade.py", "        actual_devices = list(\n            dict.fromkeys(\n                [", "        actual_devices = list(\n            set(\n                [", rule="R1")
@@ -239,7 +239,7 @@ M("C16", "unlocked", "driver/udp_socket.py", "    def get_and_increment_sequence
 M("C16", "keypress-protocol-range", "async_spa.py",
   "            lambda: GeckoPackCommandProtocolHandler.keypress(\n                self._protocol.get_and_increment_sequence_counter(True),  # type: ignore", "            lambda: GeckoPackCommandProtocolHandler.keypress(\n                self._protocol.get_and_increment_sequence_counter(False),  # type: ignore", rule="R4")
 M("C16", "ge-twin", "driver/async_udp_protocol.py", "            if self._sequence_counter_protocol == 191:", "            if self._sequence_counter_protocol >= 191:", expect="silent")
-M("C16", "class-level-counter", "driver/async_udp_protocol.py", "class GeckoAsyncUdpProtocol(asyncio.DatagramProtocol):\n", "class GeckoAsyncUdpProtocol(asyncio.DatagramProtocol):\n    _sequence_counter_protocol = 0\n", rule="R3")
+M("C16", "class-level-counter", "driver/async_udp_protocol.py", "class GeckoAsyncUdpProtocol(asyncio.DatagramProtocol):\n", "class GeckoAsyncUdpProtocol(asyncio.DatagramProtocol):\n    _sequence_counter_protocol = 0\n", expect="silent")  # shadowed by the instance attribute set in __init__: behaviour-preserving
 
 # --------------------------------------------------------------------------- C17
 M("C17", "member-missing", "config.py", "    PING_FREQUENCY_IN_SECONDS = 2\n    PING_DEVICE", "    PING_DEVICE", rule="R1")
@@ -285,8 +285,8 @@ M("C11", "eco-guarded-by-value", "automation/async_facade.py",
 M("C11", "eco-guard-alias-twin", "automation/async_facade.py",
   "        if GeckoConstants.KEY_ECON_ACTIVE in self._spa.accessors:\n            self._ecomode = GeckoSwitch(",
   "        eco_key = GeckoConstants.KEY_ECON_ACTIVE\n        if eco_key in self._spa.accessors:\n            self._ecomode = GeckoSwitch(", expect="silent")
-M("C12", "all-devices-sorted", "driver/spastruct.py", "        self.all_devices = log_class.all_device_keys", "        self.all_devices = sorted(log_class.all_device_keys)", rule="R1")
-M("C12", "user-demands-set", "driver/async_spastruct.py", "        self.user_demands = log_class.user_demand_keys", "        self.user_demands = list(set(log_class.user_demand_keys))", rule="R1")
+M("C12", "all-devices-sorted", "driver/spastruct.py", "        self.all_devices = log_class.all_device_keys", "        self.all_devices = sorted(log_class.all_device_keys)", rule="R8")
+M("C12", "user-demands-set", "driver/async_spastruct.py", "        self.user_demands = log_class.user_demand_keys", "        self.user_demands = list(set(log_class.user_demand_keys))", rule="R8")
 M("C12", "all-devices-copy-twin", "driver/async_spastruct.py", "        self.all_devices = log_class.all_device_keys", "        self.all_devices = list(log_class.all_device_keys)", expect="silent")
 M("C14", "heater-sync-rounds", "automation/heater.py", "        self._target_temperature_sensor.accessor.value = new_temperature", "        self._target_temperature_sensor.accessor.value = round(new_temperature)", rule="R5")
 M("C14", "heater-async-skip-in-range", "automation/heater.py",
